@@ -123,7 +123,31 @@ def validate(ctx, traces, prop, kind):
     return verdicts
 
 
+def run_replay(ctx, prop):
+    """./check <ID> --replay PATH : perform the recorded calls again on the current tree and validate"""
+    d = json.load(open(ctx.replay))
+    case = d.get("case") or {}
+    ctx.rule = "replay of one recorded case"
+    res = tlc.run("BitVecMC", "BitVecMC.cfg", tag="bvmc", workers=2)
+    ctx.add_tlc(res, "M:BitVecMC.cfg")
+    if "trace" in case:
+        t = case["trace"]
+        drop = ("lsf", "rsf", "lc", "rc", "raised", "live", "same", "vals")
+        calls = [dict((k, v) for k, v in e.items() if k not in drop) for e in t["ev"] if e["act"] not in ("evals", "frame")]
+        beh = {"w": t["w"], "calls": calls}
+        tr = c01.replay(1, beh, d.get("seed", 0) * 1000003 + t.get("t", 1), t.get("thr", 0))
+        validate(ctx, [tr], prop, "replay")
+        ctx.sample({"source": "replay", "calls": calls})
+    elif "event" in case:
+        ctx.note("replay_note", "hook events are re-recorded by running the suite and the ISA driver again")
+        hook_traces(ctx, prop)
+    else:
+        raise tlc.MachineryError("replay file has no trace/event")
+
+
 def run(ctx, prop):
+    if ctx.replay:
+        return run_replay(ctx, prop)
     quick = ctx.tier == "quick"
     ctx.rule = ("API-call behaviours of specs/ExprGen.tla performed on real amoco objects and validated by "
                 "specs/ExprTrace.tla against the reference semantics specs/lib/Expr.tla over a set of register "
